@@ -31,7 +31,7 @@ RULE = ("seeded atom arrays / stacks (1-12 atoms, 1-3 models, optional atom_id/b
         "B-factors around 999.995/-99.995, ids around 99999/9999/-9999/-999 and the hybrid-36 range borders, 0-4 "
         "character names with 1-2 letter elements, empty chain), written and re-read op by op against the Lean model "
         "(text of every line compared), a malformed stream (one field beyond its column: model and code must both "
-        "refuse), raw ATOM lines in non-canonical but valid layouts for the reader, hybrid-36 numbers at all range "
+        "refuse), get_structure(model=k) for k in -M-3..M+2, raw ATOM lines in non-canonical but valid layouts for the reader, hybrid-36 numbers at all range "
         "borders for widths 1-5; oracle: independent PDB column table + write/read equality + exhaustive width-4 "
         "hybrid-36 (thorough: strided width 5). non-trivial = has an atom or a hybrid-36 op; distinct = different op text")
 TRUSTED = ["numpy chararray concatenation/justification and rstrip-on-index modelled by documented semantics",
@@ -44,10 +44,13 @@ ASSUMPTIONS = ["field characters are printable non-blank ASCII; ids fit a C int"
 LEVEL_TEXT = ("Lean proofs for all inputs: hybrid-36 decode(encode n w) = n for every width w >= 1 and n <= maxNumber w (also inside a "
               "blank-padded column), encode(decode s) = s on canonical strings, rejection beyond the range, width; the repaired "
               "_check_pdb_compatibility accepts exactly the atoms whose fields fit after rounding (C07_compat_sound / _exact) and every "
-              "accepted ATOM/HETATM record is 80 characters with all 19 fields in their fixed columns (C07_columns); rounding error <= half "
-              "a unit of the last written decimal; identifier/name fields of a record read back (C07_atom_roundtrip_partial); CONECT "
-              "writer. Partial: reading the numeric text back, MODEL/ENDMDL indexing, the CONECT id map and CRYST1 are tied by "
-              "correspondence and the write/read oracle only.")
+              "accepted ATOM/HETATM record is 80 characters with all 19 fields in their fixed columns (C07_columns); full record round "
+              "trip C07_atom_roundtrip: the reader returns every annotation, B-factor/occupancy to 1e-2, charge and coordinates to 1e-3 "
+              "(float() on the writer's fixed-point text modelled as exact decimal parsing; rounding error <= half a unit, "
+              "C07_round_error); C07_models: model=k / model=-k select exactly that model's records of a written stack, 0 and "
+              "out-of-range indices are refused (after fix 3f6e919f); C07_conect_roundtrip: the set of carriable bonds survives "
+              "write->read through the atom-id map incl. hybrid-36 ids; regenerated column tables. Partial: CRYST1, altloc filtering, "
+              "NaN/inf and the assembly of per-record results into numpy arrays are exercised by correspondence and oracle only.")
 LEVEL_NOTE = "float formatting/parsing, numpy chararray and BondList semantics are modelled, not verified; see notes/C07.md"
 TECHNIQUE = "Lean 4 proof (induction over digit lists / list layout lemmas) + regenerated column tables + correspondence"
 
